@@ -65,7 +65,6 @@ spec fn dec_ok<I: Iterator<Item = u8>>(it: CharWithEndOffsetIterator<I>) -> bool
         } else {
             assert(enum_rest(self.inner) =~= rest0.skip(1));
         }
-        assert(c == u8code(rest0));
     }
 //@}
 //@endimpl
